@@ -16,8 +16,9 @@ class U3GateToRotation(DecompositionRule[GateOperation]):
     """
 
     def predicate(self, operation: GateOperation) -> bool:
-        # Only decompose U3 and its controlled version
-        return (
+        # Only decompose U3 and its controlled version; operations that are not gates
+        # (e.g. MultiPhaseOperation) are none of them.
+        return isinstance(operation, GateOperation) and (
             operation.gate.name == "U3"
             or isinstance(operation.gate, ControlledGate)
             and operation.gate.wrapped_gate.name == "U3"
